@@ -14,6 +14,12 @@
 (*   BatchOnlyDrops     batch = normal minus head lines and separators       *)
 (*   FindingsInvariant  the multiset of (level, text) findings at level info *)
 (*                      does not depend on batch / colours                   *)
+(* A line may be printed in two calls (the first leaves it open - the       *)
+(* "Result: " of a policy audit, at level info - and the next one completes  *)
+(* it with the verdict at its own level): the call alphabet has that pair as *)
+(* one element ("pair"), because that is how the tool uses it; each half is   *)
+(* filtered by the minimum level on its own, so at -l warn the verdict stays  *)
+(* and its prefix goes.                                                      *)
 (* TLC checks them for every call sequence up to MaxCalls over the call      *)
 (* alphabet; each (sequence, options) is emitted with the expected buffer    *)
 (* and replayed into the real OutputBuffer class.                            *)
@@ -30,16 +36,20 @@ MinRank(L) == CASE L = "info" -> 0 [] L = "warn" -> 1 [] L = "fail" -> 2
 P(lv, t, a) == [op |-> "print", lv |-> lv, text |-> t, always |-> a]
 Calls == {P("fail", "F", FALSE), P("warn", "W", FALSE), P("info", "I", FALSE), P("good", "G", FALSE), P("info", "", FALSE),
           P("fail", "A", TRUE), P("good", "B", TRUE),
+          [op |-> "pair", lv |-> "fail", text |-> "X", always |-> FALSE], [op |-> "pair", lv |-> "good", text |-> "K", always |-> FALSE],
           [op |-> "head", lv |-> "head", text |-> "# H", always |-> FALSE], [op |-> "sep", lv |-> "sep", text |-> "", always |-> FALSE],
           [op |-> "enter", lv |-> "", text |-> "", always |-> FALSE], [op |-> "exit", lv |-> "", text |-> "", always |-> FALSE],
           [op |-> "flush", lv |-> "", text |-> "", always |-> FALSE]}
 Opts == [level : {"info", "warn", "fail"}, batch : BOOLEAN, colors : BOOLEAN]
 
 Empty == [buf |-> <<>>, sec |-> <<>>, insec |-> FALSE]
-Line(c, o) == [lv |-> c.lv, text |-> c.text, col |-> (o.colors /\ c.text # "" /\ c.lv \notin {"info", "sep"})]
+Prefix == "R: "                                                        \* the open first half of a pair, printed at level info
+Line(c, o) == [lv |-> c.lv, pre |-> "", text |-> c.text, col |-> (o.colors /\ c.text # "" /\ c.lv \notin {"info", "sep"})]
 Put(st, ln) == IF st.insec THEN [st EXCEPT !.sec = Append(@, ln)] ELSE [st EXCEPT !.buf = Append(@, ln)]
 Apply(st, c, o) ==
     CASE c.op = "print" -> IF ~c.always /\ Rank(c.lv) < MinRank(o.level) THEN st ELSE Put(st, Line(c, o))
+      [] c.op = "pair" -> IF Rank(c.lv) < MinRank(o.level) THEN (IF MinRank(o.level) > 0 THEN st ELSE Put(st, [lv |-> "info", pre |-> "", text |-> Prefix, col |-> FALSE]))
+                          ELSE Put(st, [Line(c, o) EXCEPT !.pre = IF MinRank(o.level) > 0 THEN "" ELSE Prefix])
       [] c.op = "head" -> IF o.batch THEN st ELSE Put(st, Line(c, o))
       [] c.op = "sep" -> IF o.batch \/ MinRank(o.level) > 0 THEN st ELSE Put(st, Line(c, o))
       [] c.op = "enter" -> [st EXCEPT !.insec = TRUE]
@@ -60,20 +70,24 @@ Spec == Init /\ [][Next]_vars
 
 Done == pc = Len(calls) + 1
 Out == st.buf \o st.sec
-Texts(q) == [i \in 1..Len(q) |-> <<q[i].lv, q[i].text>>]
+Texts(q) == [i \in 1..Len(q) |-> <<q[i].lv, q[i].pre, q[i].text>>]
 \* law 1: a higher minimum level only removes lines below it
 Keep(ln, L) == Rank(ln.lv) >= MinRank(L)
 AlwaysTexts == {c.text : c \in {d \in Calls : d.always}}
 LevelOnlyRemoves == Done =>
     LET base == Final(calls, [opts EXCEPT !.level = "info"]) IN
-    Texts(Out) = Texts(SelectSeq(base, LAMBDA ln : Keep(ln, opts.level) \/ ln.text \in AlwaysTexts))
+    LET kept == SelectSeq(base, LAMBDA ln : Keep(ln, opts.level) \/ ln.text \in AlwaysTexts)
+        \* (the info-level prefix of a two-call line goes with the other info output)
+        shown == [i \in 1..Len(kept) |-> IF MinRank(opts.level) > 0 THEN [kept[i] EXCEPT !.pre = ""] ELSE kept[i]] IN
+    Texts(Out) = Texts(shown)
 \* law 2
 ColourOnlyWraps == Done => Texts(Out) = Texts(Final(calls, [opts EXCEPT !.colors = ~opts.colors]))
 \* law 3
 BatchOnlyDrops == (Done /\ opts.batch) =>
     Texts(Out) = Texts(SelectSeq(Final(calls, [opts EXCEPT !.batch = FALSE]), LAMBDA ln : ln.lv \notin {"head", "sep"}))
 \* status-relevant content: no option ever turns a line into another
-NoRewrite == Done => \A i \in 1..Len(Out) : \E c \in Calls : c.lv = Out[i].lv /\ c.text = Out[i].text
+NoRewrite == Done => \A i \in 1..Len(Out) : \/ \E c \in Calls : c.lv = Out[i].lv /\ c.text = Out[i].text /\ Out[i].pre \in {"", Prefix}
+                                            \/ Out[i].lv = "info" /\ Out[i].text = Prefix /\ Out[i].pre = ""
 
 Emit == Done => PrintT(ToJson([calls |-> calls, opts |-> opts, out |-> Out]))
 =============================================================================
